@@ -126,7 +126,9 @@ struct ClmRoundtrip : Family {
 			if (l.verb != "wav") continue;
 			In in;
 			in.base = l.get("name", "a");
-			for (char c : in.base) if (!(isalnum(static_cast<unsigned char>(c)) || c == '_')) throw std::runtime_error("bad wav base name");
+			std::string rawName = unquoteToken(l.get("rawname", "")); // adaptive phase: an input living at a path the implementation itself uses
+			if (!rawName.empty()) { size_t dot = rawName.rfind('.'); in.base = (dot == std::string::npos || dot == 0) ? rawName : rawName.substr(0, dot); if (rawName.find('/') != std::string::npos) throw std::runtime_error("bad raw wav name"); }
+			else for (char c : in.base) if (!(isalnum(static_cast<unsigned char>(c)) || c == '_')) throw std::runtime_error("bad wav base name");
 			ref::WavSpec w;
 			w.fmt = common;
 			std::string bad = l.get("bad", "");
@@ -149,7 +151,7 @@ struct ClmRoundtrip : Family {
 			if (bad == "badsize") { uint32_t sz = ref::getU32(bytes, 4) + static_cast<uint32_t>(l.u("delta", 1)); for (int i = 0; i < 4; ++i) bytes[4 + static_cast<size_t>(i)] = static_cast<uint8_t>(sz >> (8 * i)); in.bad = true; }
 			std::string dir = l.get("dir", "-");
 			if (dir == "-") dir.clear();
-			std::string fname = in.base + (l.get("ext", ".wav") == "-" ? std::string() : l.get("ext", ".wav"));
+			std::string fname = !rawName.empty() ? rawName : in.base + (l.get("ext", ".wav") == "-" ? std::string() : l.get("ext", ".wav"));
 			std::string onDisk = dir.empty() ? fname : dir + "/" + fname;
 			if (!dir.empty()) disk::mkdirs(dir + "/_s");
 			disk::put(onDisk, bytes);
@@ -176,8 +178,30 @@ struct ClmRoundtrip : Family {
 				if (ins.size() < 2) fmtdiff = false;
 				for (size_t a = 0; a < ins.size(); ++a) for (size_t b = a + 1; b < ins.size(); ++b) if (ref::nameEqualNoCase(ins[a].base, ins[b].base)) dup = true;
 				std::string what;
+				g_fault.touchedCount = 0;
 				Out o = callLib(plan, [&] { Archive::ClmFile::CreateArchive(out, list); }, &what);
 				if (o == ErrOther) ctx.fail("C03.refuse-invalid", "CreateArchive threw something that is not a std::exception");
+				// adaptive second phase (see vol-roundtrip): one more input at a side path the implementation went through
+				if (o == OkOut && !(anyBad || fmtdiff || longName || dup) && !plan.envu("adaptive", 0)) {
+					std::vector<std::string> side = sidePaths(out, list);
+					for (int ti = 0; ti < g_fault.touchedCount; ++ti) if (normPath(g_fault.touched[ti]) == normPath(out)) { ctx.count("probe.path_trace_saw_destination"); break; }
+					if (!side.empty()) {
+						ctx.count("probe.side_file_seen");
+						const std::string& sp = side[plan.seed % side.size()];
+						size_t slash = sp.rfind('/');
+						std::string dir = slash == std::string::npos ? "-" : sp.substr(0, slash), base = slash == std::string::npos ? sp : sp.substr(slash + 1);
+						Plan derived = plan;
+						derived.setenv("adaptive", 1);
+						Line w = mkline("world", "wav");
+						w.set("name", "x").set("rawname", quoteToken(base)).set("dir", dir).set("cseed", hex64(mix64(plan.seed, 78))).set("len", 10 + plan.seed % 500).set("sp", 0);
+						derived.world.push_back(w);
+						ctx.event("adaptive " + sp);
+						{ Armed a; clm.reset(); }
+						disk::wipe();
+						execute(derived, ctx);
+						return;
+					}
+				}
 				if (anyBad || fmtdiff || longName || dup) {
 					const char* why = anyBad ? "an input is not a well-formed RIFF/WAVE file" : fmtdiff ? "inputs disagree in sample format" : longName ? "a base name is longer than 8 characters" : "two base names are equal ignoring case";
 					if (o == OkOut) ctx.fail("C03.refuse-invalid", std::string("CreateArchive must be refused (") + why + ") but succeeded");
